@@ -215,6 +215,8 @@ pub fn forms(m: &Module, ty: &Ty, v: Option<&Value>, out: &mut std::collections:
                 if let Some(a) = alts.get(*i) {
                     if matches!(m.resolve(&a.ty), Ty::Null) {
                         out.insert("null-alternative-selected");
+                    } else if matches!(m.resolve(&a.ty), Ty::SeqOf { .. }) {
+                        out.insert("list-alternative-selected");
                     } else {
                         forms(m, &a.ty, Some(x), out, false);
                     }
@@ -222,6 +224,9 @@ pub fn forms(m: &Module, ty: &Ty, v: Option<&Value>, out: &mut std::collections:
             }
             _ => {
                 for a in alts {
+                    if matches!(m.resolve(&a.ty), Ty::SeqOf { .. }) {
+                        out.insert("list-alternative");
+                    }
                     forms(m, &a.ty, None, out, false);
                 }
             }
